@@ -2021,8 +2021,18 @@ func returnsConstFlag(fn *ssa.Function) bool {
 // values that take it: a copy that differs in any one of them stays equal to the original, in both argument orders.
 func checkEqualsComplete(w *World, c *Check, pr *prover) {
 	n := 0
+	type eqRoot struct {
+		name string
+		m    *ssa.Function
+	}
+	var roots []eqRoot
 	for _, s := range w.itemStructs() {
-		m := w.Method(s.Obj().Name(), "Equals")
+		roots = append(roots, eqRoot{s.Obj().Name() + ".Equals", w.Method(s.Obj().Name(), "Equals")})
+	}
+	// the comparison of two links, which ItemsEqual dispatches to, is a plain function
+	roots = append(roots, eqRoot{"linksEqual", w.Func("linksEqual")})
+	for _, s := range roots {
+		m := s.m
 		if m == nil || m.Blocks == nil {
 			continue
 		}
@@ -2151,6 +2161,17 @@ func checkEqualsComplete(w *World, c *Check, pr *prover) {
 						seenB[cur] = true
 						if b == rb {
 							reached = true
+							// return A && B && …: arriving by an edge on which the returned phi is the constant false is a
+							// verdict of "not equal"
+							if len(ret.Results) == 1 && cur.from != nil {
+								if phi, isPhi := ret.Results[0].(*ssa.Phi); isPhi && phi.Block() == rb {
+									for pi, pb := range rb.Preds {
+										if pb == cur.from && pi < len(phi.Edges) && isFalse(phi.Edges[pi]) {
+											reached = false
+										}
+									}
+								}
+							}
 						}
 						succs := b.Succs
 						if br, isIf := b.Instrs[len(b.Instrs)-1].(*ssa.If); isIf && cur.from != nil && len(b.Succs) == 2 {
@@ -2177,6 +2198,14 @@ func checkEqualsComplete(w *World, c *Check, pr *prover) {
 								}
 							}
 						}
+						// the nil side of a test of an operand is not a comparison of two values (if l == nil || w == nil { return l == w })
+						if br, isIf := b.Instrs[len(b.Instrs)-1].(*ssa.If); isIf && len(b.Succs) == 2 && len(succs) == 2 {
+							for _, prm := range u.Params {
+								if side, isNilTest := nilSideOf(br.Cond, prm); isNilTest {
+									succs = []*ssa.BasicBlock{b.Succs[1-side]}
+								}
+							}
+						}
 						for _, sc := range succs {
 							work = append(work, at{sc, b})
 						}
@@ -2186,7 +2215,7 @@ func checkEqualsComplete(w *World, c *Check, pr *prover) {
 					}
 				}
 				n++
-				key := fmt.Sprintf("%s.Equals:unit#%d:return#%d", s.Obj().Name(), ui, nR)
+				key := fmt.Sprintf("%s:unit#%d:return#%d", s.name, ui, nR)
 				if len(missed) > 0 {
 					c.bad("C09.complete", key, w.InstrPos(ret), fmt.Sprintf("%s can report 'equal' on a path that has compared none of %s: whatever decides to take that path (same id, same timestamp, a cached verdict) stands in for the properties, so a copy that differs in one of them still compares equal", funcName(u), strings.Join(missed, ", ")))
 				} else {
